@@ -81,10 +81,15 @@ def classify(error, errors):
     return type(error).__module__.replace("builtins", "").strip(".") + ("." if type(error).__module__ != "builtins" else "") + type(error).__name__
 
 
+OUTCOMES = []
+
+
 def attempt(label, function, errors, leaks):
     try:
         function()
+        OUTCOMES.append((label, "ok"))
     except errors.CutplaceError as error:
+        OUTCOMES.append((label, type(error).__name__))
         if not isinstance(error, (errors.InterfaceError, errors.DataError)):
             leaks.append((label, "CutplaceError"))
     except Exception as error:
@@ -102,6 +107,7 @@ def exercise(fmt, cid_rows, table, part, with_main=True, data_path=None):
     errors = m["errors"]
     leaks = []
     holder = {}
+    del OUTCOMES[:]
 
     def load():
         holder["cid"] = harness.make_cid(cid_rows)
@@ -156,8 +162,11 @@ def exercise(fmt, cid_rows, table, part, with_main=True, data_path=None):
                 except Exception as error:
                     code = "raised:" + type(error).__name__
                 part.transitions += 1
+                OUTCOMES.append(("main", code))
                 if code not in (0, 1, 3):
                     leaks.append(("main", "exit-%s" % code))
+    # the vector of outcomes over all entry points is the observable state reached by this case
+    part.state((fmt, tuple(OUTCOMES)))
     return leaks
 
 
@@ -362,8 +371,6 @@ def run(ctx):
     ctx.bound = {"hostile pool": len(HOSTILE), "single hostile cell cases": single, "pair cases": len(cases) - single,
                  "container cases": "%d (truncation and low/high bit flip at every %s offset of ods/xlsx files, every offset of csv / fixed text; data files of 4 formats, CID files as csv, ods, xlsx)" % (len(corrupt), "16th" if quick else "single")}
     ctx.rule = ("one hostile value at a time (thorough: pairs) in every cell of every row of 4 valid base CIDs and of their 3-row data; each case runs Cid.read, rows x 3 modes, validate, Writer and "
-                "applications.main; non-trivial = every case (each injects a fault); states not applicable (counted as distinct outcome classes); any escaping exception other than "
+                "applications.main; non-trivial = every case (each injects a fault); states = distinct vectors of outcomes over the entry points (loaded / error class per call, exit code); any escaping exception other than "
                 "InterfaceError / DataError or exit code 4 is a failure")
     ctx.assumptions = ["OSError for unreadable paths is outside the property", "hostile values a producer cannot store in an ods/xlsx file (control characters, lone surrogates) are skipped for those formats"]
-    if not ctx.total.states:
-        ctx.total.states.add(hash("C10"))
